@@ -176,6 +176,32 @@ def main():
         def api_openapi(x):
             return json.dumps(cdd.compound.openapi.emit.openapi([(x["name"], deepcopy(x["schema"]), "/api/" + x["name"].lower(), "id", x.get("crud", "CRD"))]))
 
+        def _live(x):
+            """the object named x['obj'], imported from a real file (the in-memory / `inspect` path of the parsers)"""
+            import importlib.util
+
+            p = fresh("live_mod_%d.py" % counter[0])
+            with open(p, "w") as f:
+                f.write("from typing import *\n\n\n" + x["src"])
+            name = os.path.splitext(os.path.basename(p))[0]
+            spec = importlib.util.spec_from_file_location(name, p)
+            mod = importlib.util.module_from_spec(spec)
+            sys.modules[name] = mod  # stays registered: inspect.getsource of a class looks its module up by name
+            spec.loader.exec_module(mod)
+            return getattr(mod, x["obj"])
+
+        def api_live_function(x):
+            ir = cdd.function.parse.function(_live(x))
+            ir.setdefault("returns", None)
+            # (function / argparse emit are not used here: the live path keeps the return default as a Python value, on which
+            #  the function and argparse emitters raise - deterministic, but it would hide the interesting text)
+            return canon_ir(ir) + to_code(cdd.class_.emit.class_(deepcopy(ir), class_name="K")) + cdd.docstring.emit.docstring(deepcopy(ir), docstring_format="numpydoc")
+
+        def api_live_class(x):
+            ir = cdd.class_.parse.class_(_live(x))
+            ir.setdefault("returns", None)
+            return canon_ir(ir) + to_code(cdd.class_.emit.class_(deepcopy(ir), class_name="K")) + to_code(cdd.function.emit.function(deepcopy(ir), function_name="f", function_type="static"))
+
         def api_module_contents(x):
             p = fresh("pkg_init.py")
             with open(p, "w") as f:
